@@ -701,3 +701,52 @@ Proof.
   injection H1 as <- <-. apply add_g_gen in Ha as (_ & Hl & Hx); [|done]. split; [done|].
   intros x Hxn. destruct (Hx x Hxn) as [?|(? & ? & _ & ?)]; auto.
 Qed.
+
+(* ------------------------------------------------------------------ one continuous assignment, buffer case *)
+(* the expression callbacks add fresh gates outside the reserved identifiers and undriven placeholder buffers *)
+Definition fr2 (k : rctx) (st st' : cstate) : Prop :=
+  st.1 ⊆ st'.1 ∧ ∀ x i, st'.1 !! x = Some i → st.1 !! x = None → x ∉ k_rsv k ∨ i = mk_node Buf false ∅.
+Lemma fr2_cond k e st st' r : c_cond k st e = Ok (st', r) → fr2 k st st'.
+Proof.
+  apply (frame_cond k (fr2 k)).
+  - intros s. split; [done|]. intros x i Hx Hn. congruence.
+  - intros a b c [A1 A2] [B1 B2]. split; [by etrans|]. intros x i Hx Hn. destruct (b.1 !! x) as [j|] eqn:Eb.
+    + pose proof (lookup_weaken _ _ _ _ Eb B1). assert (j = i) as -> by congruence. eauto.
+    + eauto.
+  - intros s prefix t items fi rem s' r' Ht Hfi H. apply gate_spec in H as (Hs & Hl & Hnd & Hnr & Hnew & Hge); [|done]. split; [done|].
+    intros x i Hx Hn. assert (Hd : x ∈ dom s'.1) by (apply elem_of_dom; eauto). destruct (Hnew x Hd) as [Hd'|[->|[_ Hb]]].
+    + apply elem_of_dom in Hd' as [? ?]. congruence.
+    + by left.
+    + right. congruence.
+Qed.
+(* `assign lv = e` where the result of e is not one of the reader's own gate nodes (e is an identifier, a constant, a
+   parenthesised one, or a cancelled parity pair): lv becomes a buffer of that node and carries the value of e *)
+Theorem assign_buffer_correct k st lv e st1 r st' :
+  c_cond k st e = Ok (st1, r) → r ∉ st1.2 → assignment k st1 lv r = Ok st' →
+  ties_ok k st.1 → lv ∉ [k_t0 k; k_t1 k; k_tx k] → lv ∈ k_rsv k →
+  (∀ i, st.1 !! lv = Some i → n_fi i = ∅ ∧ is_free i = true) →
+  ∀ v, consistent st'.1 v → v lv = sem_cond v (v (k_tx k)) e.
+Proof.
+  intros Hc Hr Ha Ht Hlv Hrsv Hfree v Hv.
+  destruct (compile_cond_ok e k st st1 r Hc) as [Hs Hval]. destruct (fr2_cond _ _ _ _ _ Hc) as [_ Hnew].
+  unfold assignment in Ha. rewrite bool_decide_eq_false_2 in Ha by done. rewrite bool_decide_eq_false_2 in Ha by done.
+  apply mbind_ok in Ha as ([g' nm] & H1 & E). injection E as <-. simpl in *.
+  unfold add_node, lift in H1. destruct (add_g st1.1 lv Buf [r] [] rd_flags) as [[g2 o] nm2] eqn:Eg. destruct o; [|discriminate].
+  injection H1 as <- <-. apply add_g_gen in Eg as (_ & Hl & Hx); [|done].
+  (* lv was absent or a free node without fan-in *)
+  assert (Hlv1 : ∀ i, st1.1 !! lv = Some i → n_fi i = ∅ ∧ is_free i = true).
+  { intros i Hi. destruct (st.1 !! lv) as [j|] eqn:Ej.
+    - pose proof (lookup_weaken _ _ _ _ Ej Hs). assert (j = i) as -> by congruence. eauto.
+    - destruct (Hnew lv i Hi Ej) as [?| ->]; [done|]. done. }
+  assert (Hfi : fanin st1.1 lv = ∅).
+  { unfold fanin. destruct (st1.1 !! lv) as [i|] eqn:Ei; [|done]. simpl. by destruct (Hlv1 i eq_refl). }
+  rewrite Hfi in Hl.
+  assert (Hc1 : consistent st1.1 v).
+  { intros x i Hi. destruct (decide (x = lv)) as [->|Hne].
+    - unfold node_ok. destruct (Hlv1 i Hi) as [_ ->]. done.
+    - destruct (Hx x Hne) as [E|(E & _)]; [|congruence]. apply Hv. by rewrite E. }
+  rewrite <- (Hval v Ht Hc1).
+  pose proof (Hv lv _ Hl) as Hn. unfold node_ok, is_free in Hn. simpl in Hn.
+  rewrite bool_decide_eq_false_2 in Hn by set_solver. rewrite Hn.
+  match goal with |- gate_val Buf v ?S = _ => replace S with (list_to_set [r] : gset string) by set_solver end. rewrite gv1. simpl. by destruct (v r).
+Qed.
